@@ -51,6 +51,8 @@ CASES_Q = [
     ('puso', 'PCSO', [('a', 'b', 'c'), ()], 1, 'geometric1', 'down', 1, None),
     ('puso', 'PUSO', [('a', 'b', 'c')], 1, 'T0', 'up', 1, 'cancelled-variable'),
     ('puso', 'QUSOMatrix', [(0,), (0, 1)], 1, 'T0', 'up', 1, None),
+    ('puso', 'PUSOMatrix', [(0, 2), (2,)], 1, 'T0', 'up', 1, None),                        # degree <= 2 given to the general annealer, index 1 unused
+    ('pubo', 'PUBOMatrix', [(0, 3), (1,), ()], 1, 'T1', None, 1, None),                    # same for the boolean front end, index 2 unused
     ('qubo', 'QUBOMatrix', [(0,), (0, 1), ()], 1, 'T0', 'mixed', 1, None),
     ('qubo', 'QUBO', [('a',), ('a', 'b')], 2, 'T0', 'up', 1, None),
     ('qubo', 'dict', [(0,), (0, 1)], 1, 'Thalf', None, 1, None),
